@@ -36,8 +36,9 @@ var recipeSites = []Site{
 	{"newX25519IdentityFromScalar.result", pkgAge, "", "newX25519IdentityFromScalar", "ret:0", []string{"C04", "C05", "C01"}},
 	{"newX25519IdentityFromScalar.guards", pkgAge, "", "newX25519IdentityFromScalar", "facts:ret", []string{"C05"}},
 	{"X25519Identity.Recipient.result", pkgAge, "X25519Identity", "Recipient", "ret:0", []string{"C04", "C05", "C01"}},
-	{"newX25519RecipientFromPoint.result", pkgAge, "", "newX25519RecipientFromPoint", "ret:0", []string{"C04", "C05", "C01"}},
-	{"newX25519RecipientFromPoint.guards", pkgAge, "", "newX25519RecipientFromPoint", "facts:ret", []string{"C05"}},
+	// newX25519RecipientFromPoint is spliced into its callers by the normal form
+	{"ParseX25519Recipient.result", pkgAge, "", "ParseX25519Recipient", "ret:0", []string{"C04", "C05", "C01"}},
+	{"X25519Identity.Recipient.result", pkgAge, "X25519Identity", "Recipient", "ret:0", []string{"C04", "C05", "C01"}},
 	{"ParseX25519Recipient.hrp", pkgAge, "", "ParseX25519Recipient", "facts:ret", []string{"C05", "C09"}},
 	{"ParseX25519Identity.hrp", pkgAge, "", "ParseX25519Identity", "facts:ret", []string{"C05", "C09"}},
 	{"X25519Recipient.String.encode", pkgAge, "X25519Recipient", "String", "ret:0", []string{"C05", "C09"}},
